@@ -12,6 +12,11 @@ LM = 'rnacos::raft::filestore::raftlog::RaftLogManager::'
 
 
 def run(ck, fb):
+    _run0(ck, fb)
+    r08f(ck, fb)
+
+
+def _run0(ck, fb):
     ck.explanation = (
         'Decides necessary conditions of "an installed snapshot becomes the served state": (a) on the call graph (with actix message '
         'edges) finalize_snapshot_installation reaches RaftDataHandler::load_snapshot - the same loader start-up uses - through '
@@ -119,3 +124,40 @@ def run(ck, fb):
                    sp.where(), 'the pointer log range is not inserted together with saving the catalogue')
         wr = util.sends(sp, r'raftlog::RaftLogRequest$', 'Write')
         ck.require(len(wr) >= 1, 'R08e', 'save_new_snapshot_pointer:writes-pointer', sp.where(), 'the pointer record is not written into its log file')
+
+
+def r08f(ck, fb):
+    ck.rule('R08f', 'an installed snapshot REPLACES the follower\'s state: from StateApplyManager::apply_snapshot, on the call graph with actix message '
+                    'edges, an operation that empties a component\'s store (clear / drain / retain / replacement of the map) is reachable for the '
+                    'components that load snapshot records; a load that only inserts keeps every key the leader deleted before the snapshot was '
+                    'taken. (Structural necessary condition: it asks that a reset exists on the install path, not that it is complete.)')
+    cg = c01.get_cg(fb)
+    start = SA + 'apply_snapshot'
+    if not fb.has(start):
+        ck.body(start, 'R08f')
+        return
+    reach = cg.reachable([n for n in fb.bodies if n == start or n.startswith(start + '::')])
+    comps = {'ConfigActor': r'^rnacos::config::core::ConfigActor|^<rnacos::config::core::ConfigActor',
+             'NamespaceActor': r'^rnacos::namespace::NamespaceActor|^<rnacos::namespace::NamespaceActor',
+             'TableManager': r'^rnacos::raft::db::table::|^<rnacos::raft::db::table::',
+             'SequenceDbManager': r'^rnacos::sequence::core::|^<rnacos::sequence::core::',
+             'McpManager': r'^rnacos::mcp::core::|^<rnacos::mcp::core::',
+             'DirectCacheManager': r'^rnacos::cache::core::|^<rnacos::cache::core::'}
+    loaded = {}
+    resets = {}
+    for n in reach:
+        b = fb.bodies.get(n)
+        if b is None:
+            continue
+        for c, pat in comps.items():
+            if re.search(pat, n):
+                loaded[c] = True
+                if b.calls(r'(HashMap|BTreeMap|HashSet|BTreeSet|Vec)::<.*>::(clear|drain|retain)$|std::mem::take|std::mem::replace'):
+                    # only count resets that are part of loading (not per-key maintenance): the body must mention snapshot loading
+                    if re.search(r'snapshot|reset|clear', n.split('::')[-1], re.I):
+                        resets[c] = n
+    ck.floor('R08f', 'components reached by the install path', len(loaded), 4)
+    missing = sorted(c for c in loaded if c not in resets)
+    ck.require(not missing, 'R08f', 'apply_snapshot:resets-state', fb.get(start).where(),
+               'the install path only inserts: no reset of %s is reachable from apply_snapshot, so keys the follower holds and the snapshot lacks '
+               '(deleted on the leader before compaction) survive the install and are served' % missing, 'reset reachable for every loaded component')
